@@ -5,7 +5,7 @@ sys.path.insert(0, os.path.dirname(os.path.abspath(__file__)))
 import pipeline as P
 props = open(os.path.join(P.SPEC, "Props.tla")).read()
 steps = [x + "_Prop" for x in re.findall(r"^(C\d+_\w+)_Step\s*==", props, flags=re.M)]
-invs = [x for x in re.findall(r"^(C\d+_\w+)\s*==", props, flags=re.M) if not x.endswith(("_Step", "_Prop"))]
+invs = [x for x in re.findall(r"^(C\d+_\w+)\s*==", props, flags=re.M) if not x.endswith(("_Step", "_Prop", "_TStep"))]
 cfg = sys.argv[1]
 to = int(sys.argv[2]) if len(sys.argv) > 2 else 300
 r = P.model_check(cfg, timeout=to, invariants=invs, properties=steps)
